@@ -79,10 +79,20 @@ def check_const(case):
     S = pan.rp.embed(ref.scale_of([('w', 'w', abs(tri[0]) * b / a, 1, 1, 0, 0), ('w', 'w', abs(tri[1]) * a / b, 0, 0, 1, 1),
                                    ('w', 'w', abs(tri[2]), 1, 0, 0, 1), ('w', 'w', abs(tri[2]), 0, 1, 1, 0)]), size, r0, c0)
     got, exp = (K, Kr) if cfg['finalize'] else (np.triu(K), np.triu(Kr))
-    ratio, idx = pan.worst(got, exp, S, RTOL)
-    if ratio > 1:
-        fails.append(fail('calc_kG0 (constant load) differs from the Hessian of the pre-stress work', sig=None, cfg=cfg, triple=tri,
-                          index=idx, got=float(got[idx]), expected=float(exp[idx])))
+    tru = (lambda A: A) if cfg['finalize'] else np.triu
+    sterms = [('w', 'w', abs(tri[0]) * b / a, 1, 1, 0, 0), ('w', 'w', abs(tri[1]) * a / b, 0, 0, 1, 1),
+              ('w', 'w', abs(tri[2]), 1, 0, 0, 1), ('w', 'w', abs(tri[2]), 0, 1, 1, 0)]
+
+    def build(rv):
+        return tru(pan.rp.embed(rv.kG(*tri), size, r0, c0)), tru(pan.rp.embed(rv.scale_of(sterms), size, r0, c0))
+    status, ratio, idx, info = pan.tiered(ref, got, exp, tru(S), RTOL, build)
+    if status == 'known':
+        fails.append(fail('calc_kG0 (constant load) differs from the Hessian of the pre-stress work by more than 1e-9 of the natural entry scale '
+                          '(explained by the sub-interval integral tables alone)', sig=pan.SIG_TABLES, cfg=cfg, triple=tri, index=idx,
+                          got=float(got[idx]), expected=float(exp[idx]), **info))
+    elif status == 'violation':
+        fails.append(fail('calc_kG0 (constant load) ' + (info['kind'] if info else 'differs from the Hessian of the pre-stress work'), sig=None, cfg=cfg,
+                          triple=tri, index=idx, got=float(got[idx]), expected=float(exp[idx])))
     # only w amplitudes of this panel are touched
     nd = 1 if cfg['model'] == 'plate_w' else 3
     wmask = np.zeros(size, dtype=bool)
